@@ -72,11 +72,11 @@ CFG = {
                      "the hypothesis of C03.team_effort_exact), alternatives; oracle: booked x efficiency "
                      "= effort (uniform-efficiency teams), no further slot, team members booked for the same instants, one candidate set"),
     "C04": dict(files=["Properties/C04.lean"], oracles=("C04",),
-                knobs=[(2, Knobs(envelope="asap", p_dep=0.85, p_gap=0.6, p_onstart=0.25, p_container=0.5, p_prec=0.25, p_pin=0.25, aligned_only=False)),
+                knobs=[(2, Knobs(envelope="asap", p_dep=0.85, p_gap=0.6, p_glen=0.6, p_onstart=0.25, p_container=0.5, p_prec=0.25, p_pin=0.25, aligned_only=False)),
                        (1, Knobs(envelope="alap", p_dep=0.85, p_gap=0.6, p_container=0.5, p_prec=0.25)),
                        (1, Knobs(envelope="alap", max_tasks=6, p_twin=0.7, p_container=0.85, p_dep=0.85, p_gap=0.5, dur_weeks=[3, 4])),
                        # three nesting levels, dependencies mostly on the containers: inherited edges of outer containers
-                       (1, Knobs(envelope="asap", max_tasks=7, p_container=0.9, p_inner=0.85, p_dep=0.6, p_gap=0.6, dur_weeks=[3, 4]))],
+                       (1, Knobs(envelope="asap", max_tasks=7, p_container=0.9, p_inner=0.85, p_dep=0.6, p_gap=0.6, p_glen=0.5, dur_weeks=[3, 4]))],
                 nontrivial=lambda p, r: any(t.get("deps") or t.get("prec") for _, t, _, _ in A.flat_tasks(p)),
                 rule="ASAP and ALAP envelope projects with dense DAGs over nested trees, gaps (incl. days, sub-slot), on-start edges, "
                      "relative/absolute references, precedes, dated containers; oracle: start >= predecessor (start|end) + gap for own, "
@@ -89,7 +89,7 @@ CFG = {
                      "starts in ISO weeks 52/53/1; oracle: booked time per calendar day / ISO week of each limited set <= limit; "
                      "non-trivial = distinct projects that declare a limit"),
     "C06": dict(files=["Properties/C06.lean"], oracles=("C06",),
-                knobs=[(2, Knobs(envelope="asap", sub_slot=0.9, max_res=2, p_dep=0.7, p_gap=0.5, aligned_only=False, p_milestone=0.3)),
+                knobs=[(2, Knobs(envelope="asap", sub_slot=0.9, max_res=2, p_dep=0.7, p_gap=0.5, p_glen=0.5, aligned_only=False, p_milestone=0.3)),
                        (1, Knobs(envelope="alap", sub_slot=0.9, max_res=2, p_milestone=0.2)),
                        # teams of one common efficiency (the hypothesis of C06.team_framed), sub-slot bounds and efforts
                        (1, Knobs(envelope="asap", sub_slot=0.9, max_res=3, p_team=0.7, p_eff=0.0, p_alt=0.0, p_dep=0.6, p_gap=0.5,
@@ -99,8 +99,12 @@ CFG = {
                 rule="ASAP and ALAP envelope projects with sub-slot efforts and gaps (two streams with teams of one common efficiency); oracle: bookings inside [start, end], first/last booked "
                      "slot contain start/end, interval long enough for the work of those slots, milestones at their bound"),
     "C08": dict(files=["Properties/C08.lean"], oracles=("C08",),
-                knobs=[(2, Knobs(envelope="asap", p_limits=0.05, p_tasklimits=0.0, p_wh=0.5, p_leave=0.5, p_tz=0.3, p_gvac=0.5)),
+                knobs=[(2, Knobs(envelope="asap", p_limits=0.05, p_tasklimits=0.0, p_wh=0.5, p_leave=0.5, p_tz=0.3, p_gvac=0.5, p_glen=0.5)),
                        (1, Knobs(envelope="alap", p_limits=0.05, p_tasklimits=0.0, p_wh=0.5, p_leave=0.5, p_tz=0.3, p_gvac=0.5)),
+                       # working-time gaps (gaplength) in front of resources whose hours differ from the project calendar: a bound
+                       # moved to the next project working slot shows as idle time of the resource
+                       (1, Knobs(envelope="asap", max_res=3, max_tasks=6, p_dep=0.85, p_gap=0.1, p_glen=0.9, p_wh=0.85, p_tz=0.3,
+                                 p_limits=0.0, p_tasklimits=0.0, p_leave=0.2, big_effort=0.5)),
                        # sparse backward projects with nested containers and equal local ids: wrong deadlines show as idle time
                        (1, Knobs(envelope="alap", max_res=2, max_tasks=6, p_twin=0.7, p_container=0.85, p_dep=0.8, p_gap=0.3,
                                  p_limits=0.0, p_tasklimits=0.0, big_effort=0.0, dur_weeks=[3, 4])),
@@ -112,7 +116,9 @@ CFG = {
                      "no working, unbooked slot of the task's resource between bound and end (ASAP) / end and deadline (ALAP)"),
     "C10": dict(files=["Properties/C10.lean"], oracles=("C10",),
                 knobs=[(3, Knobs(p_container=0.8, big_effort=0.3, dur_weeks=[1, 1, 2], p_pin=0.35, p_milestone=0.3)),
-                       (1, Knobs(envelope="alap", p_container=0.8, p_pin=0.3))],
+                       (1, Knobs(envelope="alap", p_container=0.8, p_pin=0.3)),
+                       # several scenarios: the roll-up of one scenario must not live on state left by another
+                       (1, Knobs(p_container=0.85, p_scen=1.0, p_pin=0.3, p_milestone=0.2, max_tasks=7, dur_weeks=[1, 2]))],
                 nontrivial=lambda p, r: any(not A.is_leaf(t) for _, t, _, _ in A.flat_tasks(p)),
                 rule="projects with nested containers (dated at every level), pinned milestones and unschedulable leaves; oracle: container "
                      "scheduled iff all children are, start/end = min/max over children, no container or group in any ledger; non-trivial = "
